@@ -30,7 +30,7 @@ theorem rtArg_e (sym : Bool) (x : XExpr) (hw : WFArg W sym (.e x)) (ihx : RT W x
   have hty : ∀ f, parseTyId W f sym (toks (fmtBodyX x) ++ t0 :: r0) = none := by
     intro f
     rw [h1']
-    obtain ⟨hstop, hid⟩ := hhead t ts' h1'
+    obtain ⟨hstop, hid⟩ := tyHeadDead_of_B W sym t ts' (by rw [← h1']; exact hhead)
     cases t with
     | id n =>
       obtain ⟨rfl, hn⟩ := hid n rfl
@@ -100,7 +100,8 @@ theorem rtArg_both (sym : Bool) (x : XExpr) (t : TyId) (hw : WFArg W sym (.both 
 
 theorem rtArg_t (sym : Bool) (ty : TyId) (hw : WFArg W sym (.t ty)) (iht : RTTy W ty) : RTArg W sym (.t ty) := by
   intro rest hrest hsafe
-  obtain ⟨_, hsym, _, m, ms, k, hmods, hk⟩ := hw
+  obtain ⟨_, hsym, _, hkw⟩ := hw
+  obtain ⟨m, ms, k, hmods, hk⟩ := kwModHead_spec ty hkw
   obtain ⟨N, h⟩ := iht sym true rest hsym hrest (fun hl => hsafe (by simpa [hasLtArg] using hl))
   have htoks : toks (fmtEOT (.t ty) true) = toks (fmtTyId ty true) := rfl
   rw [htoks]
@@ -167,7 +168,8 @@ theorem eot_head (sym : Bool) (a : TArg) (hw : WFArg W sym a) :
     obtain ⟨n, rfl, rfl, _⟩ := hw
     exact ⟨.id n, [], toks_id n, rfl⟩
   | t ty =>
-    obtain ⟨_, _, _, m, ms, k, hmods, hk⟩ := hw
+    obtain ⟨_, _, _, hkw⟩ := hw
+    obtain ⟨m, ms, k, hmods, hk⟩ := kwModHead_spec ty hkw
     obtain ⟨mods, n, targs, d⟩ := ty
     simp only [tyMods] at hmods
     subst hmods
